@@ -797,6 +797,12 @@ class Interp:
         if n == "core::cmp::Ord::cmp":
             return ordering(self.compare(args[0], args[1], True))
         if n == "core::cmp::PartialOrd::partial_cmp":
+            if self.cfg.get("partial_orders"):
+                a, b = self.deref(args[0]), self.deref(args[1])
+                if not (isinstance(a, Const) and isinstance(b, Const)) and a.expr() != b.expr():
+                    ea, eb = sorted([a.expr(), b.expr()])
+                    if self.dec.ask("incomparable(%s, %s)" % (ea, eb), [False, True]):
+                        return NONE
             return some(ordering(self.compare(args[0], args[1], True)))
         if n in ("core::cmp::Ord::max", "core::cmp::max"):
             r = self.compare(args[0], args[1], True)
